@@ -38,13 +38,13 @@ type JTree struct {
 	Mem  []JMember
 }
 
-func jN() *JTree                 { return &JTree{Kind: jNull} }
-func jS(s string) *JTree         { return &JTree{Kind: jStr, S: s} }
-func jI(i int64) *JTree          { return &JTree{Kind: jInt, I: big.NewInt(i)} }
-func jU(i uint64) *JTree         { return &JTree{Kind: jInt, I: new(big.Int).SetUint64(i)} }
-func jB64(b []byte) *JTree       { return jS(base64.StdEncoding.EncodeToString(b)) }
-func jA(k ...*JTree) *JTree      { return &JTree{Kind: jArr, Kids: k} }
-func jO(m ...JMember) *JTree     { return &JTree{Kind: jObj, Mem: m} }
+func jN() *JTree                    { return &JTree{Kind: jNull} }
+func jS(s string) *JTree            { return &JTree{Kind: jStr, S: s} }
+func jI(i int64) *JTree             { return &JTree{Kind: jInt, I: big.NewInt(i)} }
+func jU(i uint64) *JTree            { return &JTree{Kind: jInt, I: new(big.Int).SetUint64(i)} }
+func jB64(b []byte) *JTree          { return jS(base64.StdEncoding.EncodeToString(b)) }
+func jA(k ...*JTree) *JTree         { return &JTree{Kind: jArr, Kids: k} }
+func jO(m ...JMember) *JTree        { return &JTree{Kind: jObj, Mem: m} }
 func jM(n string, v *JTree) JMember { return JMember{n, v} }
 
 // Proto: line-protocol syntax (no spaces).
